@@ -256,16 +256,24 @@ func doCheck(id, tier string) int {
 
 	// ---- evidence ----------------------------------------------------------------------------
 	wall := time.Since(t0).Seconds()
-	var evals, distinctNT uint64
+	var evals, distinctNT, extraDistinct uint64
 	allStats := map[string]map[string]int64{}
 	var samples []any
 	sigsNT := map[uint64]struct{}{}
 	sigsAll := map[uint64]struct{}{}
 	perEngine := []map[string]any{}
 	for _, a := range aggs {
-		evals += a.out.runs
-		for s := range a.out.sigsNT {
-			sigsNT[s] = struct{}{}
+		if e := a.out.stats["evals"]; e > 0 {
+			evals += uint64(e)
+		} else {
+			evals += a.out.runs
+		}
+		if dc := a.out.stats["distinct_cases"]; dc > 0 {
+			extraDistinct += uint64(dc)
+		} else {
+			for s := range a.out.sigsNT {
+				sigsNT[s] = struct{}{}
+			}
 		}
 		for s := range a.out.sigs {
 			sigsAll[s] = struct{}{}
@@ -282,7 +290,7 @@ func doCheck(id, tier string) int {
 			"runs_per_hour": int64(rate), "distinct_signatures": len(a.out.sigs), "distinct_nontrivial_signatures": len(a.out.sigsNT), "worker_restarts": a.out.restarts,
 			"workers": a.cfg.workers, "race_detector": a.run.spec.race})
 	}
-	distinctNT = uint64(len(sigsNT))
+	distinctNT = uint64(len(sigsNT)) + extraDistinct
 	if len(samples) == 0 {
 		samples = append(samples, "no sample trace was captured in this run")
 	}
